@@ -407,6 +407,12 @@ func (st *Runtime) executeYieldBlock(block *BlockNode, blockParam, yieldParam *B
 		st.content = func(st *Runtime, expression Expression) {
 			outscope := st.scope
 			outcontent := st.content
+			// put back also when the content fails: the lists of the block that are still open release their scopes
+			// (relative to st.scope) while the failure unwinds through them
+			defer func() {
+				st.scope = outscope
+				st.content = outcontent
+			}()
 
 			st.scope = myscope
 			st.content = mycontent
@@ -419,9 +425,6 @@ func (st *Runtime) executeYieldBlock(block *BlockNode, blockParam, yieldParam *B
 			} else {
 				st.executeList(content)
 			}
-
-			st.scope = outscope
-			st.content = outcontent
 		}
 	}
 
